@@ -152,6 +152,7 @@ def register(S):
             kf = fp(key)
             for k2, cell in m.get("cells"):
                 if k2 == kf:
+                    ctx.st.events.append({"kind": "map_get", "found": True, "key_loc": kref.loc if isinstance(kref, RefVal) else None, "fn": ctx.fr.fn["path"]})
                     return ctx.ret(some(RefVal(cell.loc, False)))
             if m.get("complete"):
                 return ctx.ret(NONE)
@@ -160,6 +161,7 @@ def register(S):
             cell = s_some.new_heap(existing_value(ctx.ip, s_some, vty))
             m2 = ctx.ip.read_loc(s_some, mref.loc)
             ctx.ip.write_loc(s_some, mref.loc, m2.set(cells=m2.get("cells") + ((kf, RefVal(cell, True)),)))
+            s_some.events.append({"kind": "map_get", "found": True, "key_loc": kref.loc if isinstance(kref, RefVal) else None, "fn": ctx.fr.fn["path"]})
             return ctx.ret_states([(s_some, some(RefVal(cell, False))), (s_none, NONE)])
         return ctx.ret(ctx.top_ret())
 
@@ -250,7 +252,9 @@ def register(S):
 
     @S.pat(r"^alloc::collections::btree::map::BTreeMap::<K, V, A>::(insert|remove|clear|append|pop_first|pop_last|get_mut|iter_mut|values_mut|split_off|remove_entry|first_entry|last_entry|extract_if|extend)$")
     def map_mutation(ctx):
-        ctx.ip.event(ctx.st, "map_mutation", method=ctx.path.rsplit("::", 1)[1], fn=ctx.fr.fn["path"], span=ctx.call.get("span"))
+        karg = ctx.args[1] if len(ctx.args) > 1 else None
+        ctx.ip.event(ctx.st, "map_mutation", method=ctx.path.rsplit("::", 1)[1], fn=ctx.fr.fn["path"], span=ctx.call.get("span"),
+                     key_loc=karg.loc if isinstance(karg, RefVal) else None)
         mref = ctx.args[0]
         if isinstance(mref, RefVal):
             ctx.ip.write_loc(ctx.st, mref.loc, Opaque.make("btreemap", cells=(), complete=False))
